@@ -3,6 +3,7 @@
 package c05
 
 import (
+	"bytes"
 	"fmt"
 	"testing"
 	"time"
@@ -23,7 +24,7 @@ import (
 	"verif/internal/model"
 )
 
-const rule = "cases: signed structures built by the independent model and signed with stdlib crypto - RouterInfo (Ed25519, DSA, P-256, P-384 identities), LeaseSet (DSA incl. NULL certificate, P-256, P-384, Ed25519, RedDSA), LeaseSet2 / MetaLeaseSet (library-documented layout) / EncryptedLeaseSet with and without offline block (identity types as above, transient types 0,1,2,7,11), standalone OfflineSignature - (one base in three is instead built and signed by the library's own constructors, so that a verifier that is lenient in the same way as the signer is exposed by the edits) x adversarial derivations: genuine; offline block with a random signature; offline block signed by another key of the identity's type (transplanted from another identity); outer signature random or made by an attacker key, or made by the prescribed key under another store-type prefix (0, 1, 2, 3, 5, 7, 255; for RouterInfo and LeaseSet: with a prefix prepended); field-level tampering of an options mapping after signing (pair with empty key or empty value added, pair appended / dropped / duplicated, order reversed, value changed - in RouterInfo options, address options, LeaseSet2 options, MetaLeaseSet options and entry properties); 1-3 byte-level edits (bit flips, byte sets, 2-byte field +-k, insertions, deletions, truncation, appended data) aimed at header, length, count, flag and key fields or anywhere. Oracle: if the library parses the derived bytes and reports success, then (i) the strict model decodes exactly the consumed bytes, (ii) the outer signature verifies (crypto/ed25519, crypto/ecdsa, crypto/dsa) over prefix || consumed[:-sig] under the identity key, or under the transient key if flag bit 0 is set AND the offline block's signature verifies over expires||type||key under the identity key (blinded key for EncryptedLeaseSet). After a RouterInfo has verified, it is changed through the exported API (AddAddress, or the cost of an address through the pointer RouterAddresses() returns) and verified again: success must then hold over the value's new serialisation. Non-trivial: the derived input is not genuine and still parses; distinct by input bytes."
+const rule = "cases: signed structures built by the independent model and signed with stdlib crypto - RouterInfo (Ed25519, DSA, P-256, P-384 identities), LeaseSet (DSA incl. NULL certificate, P-256, P-384, Ed25519, RedDSA), LeaseSet2 / MetaLeaseSet (library-documented layout) / EncryptedLeaseSet with and without offline block (identity types as above, transient types 0,1,2,7,11), standalone OfflineSignature - (one base in three is instead built and signed by the library's own constructors, so that a verifier that is lenient in the same way as the signer is exposed by the edits) x adversarial derivations: genuine; offline block with a random signature; offline block signed by another key of the identity's type (transplanted from another identity); outer signature random or made by an attacker key, or made by the prescribed key under another store-type prefix (0, 1, 2, 3, 5, 7, 255; for RouterInfo and LeaseSet: with a prefix prepended); field-level tampering of an options mapping after signing (pair with empty key or empty value added, pair appended / dropped / duplicated, order reversed, value changed - in RouterInfo options, address options, LeaseSet2 options, MetaLeaseSet options and entry properties); 1-3 byte-level edits (bit flips, byte sets, 2-byte field +-k, insertions, deletions, truncation, appended data) aimed at header, length, count, flag and key fields or anywhere. Before a tampered or edited encoding is judged, the genuine encoding it derives from is parsed and verified in the same process. Oracle: if the library parses the derived bytes and reports success, then (i) the strict model decodes exactly the consumed bytes, (ii) the outer signature verifies (crypto/ed25519, crypto/ecdsa, crypto/dsa) over prefix || consumed[:-sig] under the identity key, or under the transient key if flag bit 0 is set AND the offline block's signature verifies over expires||type||key under the identity key (blinded key for EncryptedLeaseSet). After a RouterInfo has verified, it is changed through the exported API (AddAddress, or the cost of an address through the pointer RouterAddresses() returns) and verified again: success must then hold over the value's new serialisation. Non-trivial: the derived input is not genuine and still parses; distinct by input bytes."
 
 func TestMain(m *testing.M) { ev.Main(m, "C05", rule) }
 
@@ -304,12 +305,14 @@ func check(c Case, r *ev.Rec) error {
 		} else if c.SigMode != 0 {
 			m.Sig = attackerSig(m.Ident.SigType, c.RI.Ident.KeySeed, m.SignedPart(), c.SigMode)
 		}
-		base, tampered := tamper(c, orLib(c, r, m.Encode()))
+		orig := orLib(c, r, m.Encode())
+		base, tampered := tamper(c, orig)
 		if tampered {
 			genuine = false
 			r.Class(fmt.Sprintf("ri:mapping-tampered,kind=%d", c.Tamper[1]))
 		}
 		in = applyEdits(base, c.Edits)
+		warmGenuine(c, r, orig, in)
 		info, rem, err := router_info.ReadRouterInfo(in)
 		if err != nil {
 			r.Class("ri:unparseable")
@@ -366,7 +369,9 @@ func check(c Case, r *ev.Rec) error {
 		} else if c.SigMode != 0 {
 			m.Sig = attackerSig(m.Dest.SigType, c.LS.Seed, m.SignedPart(), c.SigMode)
 		}
-		in = applyEdits(orLib(c, r, m.Encode()), c.Edits)
+		orig := orLib(c, r, m.Encode())
+		in = applyEdits(orig, c.Edits)
+		warmGenuine(c, r, orig, in)
 		ls, err := lease_set.ReadLeaseSet(in)
 		if err != nil {
 			r.Class("ls:unparseable")
@@ -387,12 +392,14 @@ func check(c Case, r *ev.Rec) error {
 		} else if c.SigMode != 0 {
 			m.Sig = attackerSig(m.OuterSigType(), c.LS2.Header.Dest.KeySeed, m.SignedPart(), c.SigMode)
 		}
-		base, tampered := tamper(c, orLib(c, r, m.Encode()))
+		orig := orLib(c, r, m.Encode())
+		base, tampered := tamper(c, orig)
 		if tampered {
 			genuine = false
 			r.Class(fmt.Sprintf("ls2:mapping-tampered,kind=%d", c.Tamper[1]))
 		}
 		in = applyEdits(base, c.Edits)
+		warmGenuine(c, r, orig, in)
 		ls, rem, err := lease_set2.ReadLeaseSet2(in)
 		if err != nil {
 			r.Class("ls2:unparseable")
@@ -418,12 +425,14 @@ func check(c Case, r *ev.Rec) error {
 		} else if c.SigMode != 0 {
 			m.Sig = attackerSig(m.OuterSigType(), c.Meta.Header.Dest.KeySeed, m.SignedPart(), c.SigMode)
 		}
-		base, tampered := tamper(c, m.Encode())
+		orig := m.Encode()
+		base, tampered := tamper(c, orig)
 		if tampered {
 			genuine = false
 			r.Class(fmt.Sprintf("meta:mapping-tampered,kind=%d", c.Tamper[1]))
 		}
 		in = applyEdits(base, c.Edits)
+		warmGenuine(c, r, orig, in)
 		ls, rem, err := meta_leaseset.ReadMetaLeaseSet(in)
 		if err != nil {
 			r.Class("meta:unparseable")
@@ -449,7 +458,9 @@ func check(c Case, r *ev.Rec) error {
 		} else if c.SigMode != 0 {
 			m.Sig = attackerSig(m.OuterSigType(), c.ELS.KeySeed, m.SignedPart(), c.SigMode)
 		}
-		in = applyEdits(orLib(c, r, m.Encode()), c.Edits)
+		orig := orLib(c, r, m.Encode())
+		in = applyEdits(orig, c.Edits)
+		warmGenuine(c, r, orig, in)
 		ls, rem, err := encrypted_leaseset.ReadEncryptedLeaseSet(in)
 		if err != nil {
 			r.Class("els:unparseable")
@@ -544,6 +555,42 @@ func warmDonor(c Case, r *ev.Rec) {
 				r.Class("els:donor-verified-first")
 			}
 		}
+	}
+}
+
+// warmGenuine: before a derived (tampered, edited) encoding is judged, the genuine
+// encoding it was derived from is parsed and verified in the same process - what a
+// relying party has usually seen first. A verifier that remembers "this identity /
+// this date was fine" is exposed by the forgery that follows.
+func warmGenuine(c Case, r *ev.Rec, base, in []byte) {
+	if c.SigMode != 0 || bytes.Equal(base, in) {
+		return
+	}
+	ok := false
+	switch c.Kind {
+	case "ri":
+		if v, _, err := router_info.ReadRouterInfo(append([]byte{}, base...)); err == nil {
+			ok, _ = v.VerifySignature()
+		}
+	case "ls":
+		if v, err := lease_set.ReadLeaseSet(append([]byte{}, base...)); err == nil {
+			ok = v.Verify() == nil
+		}
+	case "ls2":
+		if v, _, err := lease_set2.ReadLeaseSet2(append([]byte{}, base...)); err == nil {
+			ok = v.Verify() == nil
+		}
+	case "meta":
+		if v, _, err := meta_leaseset.ReadMetaLeaseSet(append([]byte{}, base...)); err == nil {
+			ok = v.Verify() == nil
+		}
+	case "els":
+		if v, _, err := encrypted_leaseset.ReadEncryptedLeaseSet(append([]byte{}, base...)); err == nil {
+			ok = v.Verify() == nil
+		}
+	}
+	if ok {
+		r.Class(c.Kind + ":genuine-verified-before-the-forgery")
 	}
 }
 
